@@ -9,7 +9,7 @@ CONSTANTS
   ReqMode = "full"
   CfgSamplers = {"DeterministicSampler", "DynamicSampler", "EMADynamicSampler", "EMAThroughputSampler", "WindowedThroughputSampler", "TotalThroughputSampler", "RulesBasedSampler"}
   CondOps = {"=", "!=", ">", "<", ">=", "<=", "starts-with", "contains", "does-not-contain", "exists", "not-exists", "has-root-span", "matches", "in", "not-in"}
-  CondVals = {"absent", "int", "str", "numstr", "bool", "float", "nan", "null", "list", "intlist", "emptylist", "mixedlist", "badregex", "emptystr", "nestedlist", "map"}
+  CondVals = {"absent", "int", "str", "nan", "list", "intlist", "emptylist", "badregex", "nestedlist", "map"}
   CondTypes = {"absent", "string", "int", "float", "bool"}
   RuleKinds = {"int", "dur", "float", "list"}
   CondScopes = {"span", "trace"}
